@@ -490,6 +490,53 @@ fn mixed_breaks_node(node: &SyntaxNode, inherited: bool, out: &mut Vec<String>) 
     }
 }
 
+fn holds_table_call(n: &SyntaxNode) -> bool {
+    if n.kind() == K::FuncCall {
+        if let Some(callee) = n.children().next() {
+            if callee.kind() == K::Ident && matches!(callee.text().as_str(), "table" | "grid") {
+                return true;
+            }
+        }
+    }
+    n.children().any(holds_table_call)
+}
+
+fn table_in_mixed_node(node: &SyntaxNode, inherited: bool) -> bool {
+    if node.kind() == K::Markup {
+        let kids: Vec<&SyntaxNode> = node.children().collect();
+        let mut start = 0;
+        for i in 0..=kids.len() {
+            let at_break = i == kids.len()
+                || kids[i].kind() == K::Parbreak
+                || (kids[i].kind() == K::Space && has_newline(kids[i].text()));
+            if !at_break {
+                continue;
+            }
+            let line = &kids[start..i];
+            start = i + 1;
+            let mixed = inherited || line.iter().any(|c| matches!(c.kind(), K::Text | K::Strong | K::Emph | K::Raw));
+            for c in line {
+                if (mixed && holds_table_call(c)) || table_in_mixed_node(c, mixed) {
+                    return true;
+                }
+            }
+        }
+        false
+    } else {
+        let below_math = inherited || node.kind() == K::Math;
+        if below_math && holds_table_call(node) {
+            return true;
+        }
+        node.children().any(|c| table_in_mixed_node(c, below_math))
+    }
+}
+
+/// F47 (`kfk`): a `table(..)`/`grid(..)` call on a markup line that holds text, or below a Math node. The grid layout
+/// wraps a row that does not fit the width whether or not breaks are suppressed.
+pub fn has_table_in_mixed_line(root: &SyntaxNode) -> bool {
+    table_in_mixed_node(root, false)
+}
+
 /// For every markup line that holds text (and everything nested in it, and everything below a Math node): the
 /// number of line breaks inside each of its pieces. Compared between the output at the configured width and the
 /// output at an unbounded width: a difference is a line of prose that was rewrapped.
